@@ -77,6 +77,58 @@ def _own_sites(prog, f):
     return out
 
 
+def _guards(h, who):
+    """guard clauses of a predicate helper: `if [<flags> and] isinstance(<who>, T): return False` statements at its top level"""
+    out = []
+    for st in h.node.body:
+        if isinstance(st, ast.If) and not st.orelse and len(st.body) == 1 and isinstance(st.body[0], ast.Return) \
+                and isinstance(st.body[0].value, ast.Constant) and st.body[0].value.value is False:
+            parts = st.test.values if isinstance(st.test, ast.BoolOp) and isinstance(st.test.op, ast.And) else [st.test]
+            inst = [p for p in parts if isinstance(p, ast.Call) and isinstance(p.func, ast.Name) and p.func.id == "isinstance"
+                    and len(p.args) == 2 and ast.unparse(p.args[0]) == who]
+            if len(inst) == 1:
+                out.append((inst[0], [p for p in parts if p is not inst[0]]))
+    return out
+
+
+def _guard_names(prog, h, who, call) -> set:
+    """The classes a guard clause of the helper takes for ONE value at this call: a guard behind flags (`not mapping_too and ...`)
+    counts when the flags hold for the constant arguments of the call - or cannot be told (no alarm on what is not decided)."""
+    binding = {}
+    params = list(h.params)
+    for i, a in enumerate(call.args):
+        if i < len(params) and isinstance(a, ast.Constant):
+            binding[params[i]] = a.value
+    for k in call.keywords:
+        if k.arg and isinstance(k.value, ast.Constant):
+            binding[k.arg] = k.value.value
+    args_ = h.node.args
+    pos = args_.posonlyargs + args_.args
+    for a, d in zip(pos[len(pos) - len(args_.defaults):], args_.defaults):
+        if a.arg not in binding and isinstance(d, ast.Constant) and not any(k.arg == a.arg for k in call.keywords) \
+                and pos.index(a) >= len(call.args):
+            binding[a.arg] = d.value
+    for a, d in zip(args_.kwonlyargs, args_.kw_defaults):
+        if a.arg not in binding and isinstance(d, ast.Constant) and not any(k.arg == a.arg for k in call.keywords):
+            binding[a.arg] = d.value
+
+    def flag(e):
+        if isinstance(e, ast.Name) and e.id in binding:
+            return bool(binding[e.id])
+        if isinstance(e, ast.UnaryOp) and isinstance(e.op, ast.Not):
+            r = flag(e.operand)
+            return None if r is None else not r
+        return None
+    names = set()
+    for inst, flags in _guards(h, who):
+        if any(flag(x) is False for x in flags):
+            continue
+        got = _tuple_names(prog, h.module, inst.args[1]) if not isinstance(inst.args[1], ast.Name) or _is_const_tuple(prog, h.module, inst.args[1].id) \
+            else {inst.args[1].id}
+        names |= got or set()
+    return names
+
+
 def sites(prog, modules=("vector", "table")) -> List[Tuple[str, int, frozenset, bool]]:
     """(function, line, exempted names, complete?) for every Iterable-test that has an exemption tuple on the same operand.  A test
     kept in a small predicate helper (`_is_cell_sequence(obj)`: the tested operand is the helper's parameter) is ALSO reported at
@@ -87,9 +139,11 @@ def sites(prog, modules=("vector", "table")) -> List[Tuple[str, int, frozenset, 
         if f.module not in modules or isinstance(f.node, ast.Lambda):
             continue
         for ln, who, names, _neg in _own_sites(prog, f):
-            out.append((q, ln, names, REQUIRED <= names))
             if who in f.params and f.parent is None:
-                helpers.setdefault(f.name, []).append(names)
+                helpers.setdefault(f.name, []).append((f, who, names))
+                if _guards(f, who):
+                    continue          # (a predicate with guard clauses of its own: judged at its calls, with their arguments)
+            out.append((q, ln, names, REQUIRED <= names))
     if helpers:
         for q, f in sorted(prog.functions.items()):
             if f.module not in modules or isinstance(f.node, ast.Lambda):
@@ -98,7 +152,8 @@ def sites(prog, modules=("vector", "table")) -> List[Tuple[str, int, frozenset, 
                 if isinstance(n, ast.Call):
                     nm = n.func.id if isinstance(n.func, ast.Name) else n.func.attr if isinstance(n.func, ast.Attribute) else None
                     if nm in helpers and nm != f.name:
-                        for names in helpers[nm]:
+                        for h, who, names in helpers[nm]:
+                            names = frozenset(names | _guard_names(prog, h, who, n))
                             out.append((q, n.lineno, names, REQUIRED <= names))
     seen = set()
     res = []
